@@ -67,7 +67,12 @@ Definition agree (c : case) : bool :=
 Definition mismatches (l : list case) : list nat := mism_idx agree l.
 
 (* property checker on the observation (clauses documented in Net/PeersSpec.v) *)
+Definition is_broken (x : out) : bool := match x with XBroken => true | _ => false end.
+
+(* clause 9: some operation made the implementation panic, or a connection attempt /
+   send was neither served nor closed (such runs used to be dropped by the harness) *)
 Definition check (c : case) : list nat :=
-  nodup Nat.eq_dec (check_hist idk (hist_of c)).
+  nodup Nat.eq_dec (check_hist idk (hist_of c) ++
+                    clause 9 (forallb (fun ox => negb (is_broken (snd ox))) (hist_of c))).
 
 Definition violations (l : list case) : list (nat * nat) := viols check l.
